@@ -13,11 +13,16 @@
 EXTENDS Strings
 
 VARIABLE tid
+CONSTANT Light     \* TRUE: do not run the reference machine (only clauses that need no side condition are meaningful: C06, C07a, C19)
 Obs == ndJsonDeserialize("obs.ndjson")
 
 TInit == Init /\ scope = 0 /\ tid = 0
 TPick == /\ run = "gen" /\ scope = 0 /\ tid = 0
-         /\ \E k \in 1..Len(Obs) : StartA(Obs[k].i) /\ tid' = k
+         /\ \E k \in 1..Len(Obs) :
+              /\ tid' = k
+              /\ IF Light THEN /\ run' = "end" /\ src0' = Obs[k].i
+                              /\ UNCHANGED <<mvars, scope, nwords, resA, resB, devs>>
+                 ELSE StartA(Obs[k].i)
 TNext == TPick \/ ((StepM \/ NextRun) /\ UNCHANGED tid)
 TSpec == TInit /\ [][TNext]_<<vars, tid>>
 
@@ -32,6 +37,7 @@ ObsFailing ==
        [] c = "C16" -> ~((O.A.o = "ok" /\ SC16) => (O.C.o = "ok" /\ O.C.out = O.A.out /\ O.C.abs = O.A.abs))
        [] OTHER -> ~(O.tokso = "ok" /\ TokensPartition(src0, O.tokt))}
 ObsDrift ==
+  IF Light THEN {} ELSE
   {d \in {"A.o", "A.out", "A.flat", "B.o", "B.out", "B.flat", "C.o", "C.out", "toks"} :
      CASE d = "A.o" -> O.A.o # resA.o
        [] d = "A.out" -> O.A.o = "ok" /\ resA.o = "ok" /\ O.A.out # resA.out
